@@ -67,7 +67,7 @@ def mon_c05(run, world):
     # liveness monitor: feasible work under a work-conserving policy is finished before a generous timeout
     fl = world["flags"]
     if (timeout >= 10 ** 6 and not fl.get("enforce_deadlines") and not fl.get("drop_skipped_tasks")
-            and fl["scheduler"] in ("EDF", "FIFO", "LSF") and feasible_world(world)):
+            and fl["scheduler"] in ("EDF", "FIFO", "LSF") and not world.get("fuzz") and feasible_world(world)):
         left = [f for f in run["final"] if f[1] not in ("COMPLETED", "CANCELLED")]
         has_cond = any(n.get("conditional") for g in world["workload"]["graphs"] for n in g["graph"])
         canc = [f for f in run["final"] if f[1] == "CANCELLED"]
